@@ -56,4 +56,8 @@ def unit_hash_spec(ctx: Ctx):
 
 register(Contract(K + "Unit.__hash__", unit_hash_spec,
                   lambda: [Scenario("self", lambda I: dict(
-                      self=sym_obj("self", "Unit")))], props=["C19"]))
+                      self=sym_obj("self", "Unit")))],
+                  # C02 / C17: units are keys of the operation cache; the model
+                  # treats those keys by object identity, which is justified as
+                  # long as distinct units hash by their distinct symbols
+                  props=["C19", "C02", "C17"]))
